@@ -268,6 +268,11 @@ func (handler *HeadersHandler) Handle(ctx context.Context, m wire.Message) ([]wi
 		// Ignore unknown blocks as they might happen when there is a reorg.
 		logger.Verbose(ctx, "Unknown header : %s", hash)
 		logger.Verbose(ctx, "Previous hash : %s", header.PrevBlock)
+
+		// The peer announced a block that doesn't link to anything known, so the node is behind the
+		// peer's chain. Clear in sync so the node requests headers with a block locator again,
+		// otherwise nothing would ever fetch the missing blocks.
+		handler.state.ClearInSync()
 		return nil, nil //errors.New(fmt.Sprintf("Unknown header : %s", hash))
 	}
 
